@@ -547,7 +547,24 @@ pub fn cmd_run(prop: &str, tier: Tier) -> i32 {
     code
 }
 
+/// debugging aid: VERIF_LOG=1 prints the crates' own log lines during a replay
+struct StderrLog;
+impl log::Log for StderrLog {
+    fn enabled(&self, _: &log::Metadata) -> bool {
+        true
+    }
+    fn log(&self, r: &log::Record) {
+        eprintln!("LOG {} {}: {}", r.level(), r.target(), r.args());
+    }
+    fn flush(&self) {}
+}
+static LOGGER: StderrLog = StderrLog;
+
 pub fn cmd_replay(prop: &str, path: &str, trace: bool) -> i32 {
+    if std::env::var("VERIF_LOG").is_ok() {
+        let _ = log::set_logger(&LOGGER);
+        log::set_max_level(log::LevelFilter::Debug);
+    }
     if let Some(c) = crate::custom::registry(prop) {
         return replay_custom(c, path);
     }
@@ -643,6 +660,9 @@ pub fn cmd_selftest_digests(n: usize, workers: usize) -> i32 {
                     done.store(true, std::sync::atomic::Ordering::Relaxed);
                     let mut h = 0xcbf2_9ce4_8422_2325u64;
                     for l in analysis::render(&rec, usize::MAX) {
+                        // the per-process, per-worker scratch directory appears in hostile-name
+                        // scenarios ({ROOT} placeholders): it is not part of the history
+                        let l = l.replace(rec.root.as_str(), "<run>");
                         h = crate::prng::fnv_add(h, l.as_bytes());
                     }
                     h = crate::prng::fnv_add(h, format!("{:?}{:?}{}", rec.probes, rec.daemon_alive, rec.end_vt).as_bytes());
